@@ -66,10 +66,17 @@ PATCHES = {
         # background goroutines at wall-clock dependent moments
         ("\t} else {\n\t\tlock(&sched.lock)\n\t\tglobrunqput(gp)\n\t\tunlock(&sched.lock)\n\t}\n\n\tif mainStarted {\n\t\twakep()\n\t}\n\n\tschedule()\n}\n",
          "\t} else if gp.bubble != nil {\n\t\trunqput(pp, gp, false)\n\t} else {\n\t\tlock(&sched.lock)\n\t\tglobrunqput(gp)\n\t\tunlock(&sched.lock)\n\t}\n\n\tif mainStarted {\n\t\twakep()\n\t}\n\n\tschedule()\n}\n"),
+        ("func runqgrab(pp *p, batch *[256]guintptr, batchHead uint32, stealRunNextG bool) uint32 {",
+         "func runqgrab(pp *p, batch *[4096]guintptr, batchHead uint32, stealRunNextG bool) uint32 {"),
         ("const randomizeScheduler = raceenabled\n",
          "const randomizeScheduler = false\n\nvar verifNoRetake = true\n"),
     ],
     "runtime/runtime2.go": [
+        # a local run queue that never overflows in a simulated run: overflow moves half of it to the
+        # GLOBAL queue, which is polled every 61st scheduler tick, and the tick count is bumped by
+        # runtime background goroutines at wall-clock dependent moments (scenarios with several
+        # hundred runnable goroutines diverged between process layouts)
+        ("\trunq     [256]guintptr\n", "\trunq     [4096]guintptr\n"),
         ("\twaitReasonSynctestSelect:        true,\n",
          "\twaitReasonSynctestSelect:        true,\n"
          "\twaitReasonSyncMutexLock:         true,\n"
